@@ -19,12 +19,8 @@ Definition obs_eqb (a b : obs) : bool :=
 
 Definition missc (tc : nat) : cell := repeat None tc.
 
-(* subspace of the uncompressed view; [] stands for the whole array *)
-Definition subspace (shape : list nat) (idx : list aindex) (flat : list val) : list val :=
-  match idx with
-  | [] => flat
-  | _ => orth_take None shape (map (fun ni => axis_positions (fst ni) (snd ni)) (combine shape idx)) flat
-  end.
+(* subspace of the uncompressed view: Model.subspace; [] stands for the whole array *)
+Definition subspace := @Model.subspace val None.
 
 Definition finish {T} (flatten : T -> list val) (shape : list nat) (idx : list aindex)
   (r : result T) : obs :=
@@ -61,7 +57,7 @@ Inductive case :=
              (o_var : list Z) (o_cdata o_cother : list val) (o_array o_other : obs)
 (* Field.compress('indexed_contiguous') of a 3-d field *)
 | KCompress3 (nprof w : nat) (rows : list (list (list val))) (aux : option (list (list (list val))))
-             (o_count o_index : list Z) (o_cdata : list val) (o_array : obs).
+             (o_count o_index : list Z) (o_cdata : list val) (o_array o_aux : obs).
 
 Definition zlist_eqb := list_eqb Z.eqb.
 Definition vlist_eqb := list_eqb val_eqb.
@@ -86,49 +82,62 @@ Definition run_case (c : case) : obs :=
   | _ => OErr OtherErr
   end.
 
+(* the constructs spanning the field's axes: the auxiliary coordinate (if any)
+   and the second construct *)
+Definition others2 (aux : option (list (list val))) (other : list (list val)) : list (list (list val)) :=
+  match aux with Some a => [a; other] | None => [other] end.
+
 Definition check_compress2 (m : method) (w : nat) (rows : list (list val))
   (aux : option (list (list val))) (other : list (list val))
   (o_var : list Z) (o_cdata o_cother : list val) (o_array o_other : obs) : bool :=
-  let src := match aux with Some a => a | None => rows end in
   let nrows := length rows in
-  let counts := map derive_count src in
+  let counts := derive_counts rows (others2 aux other) in
   match m with
   | MContiguous =>
-      let '(cv, cd) := compress_contiguous src rows in
+      let '(cv, cd) := compress_contiguous counts rows in
       let co := pack counts other in
       zlist_eqb (map Z.of_nat cv) o_var && vlist_eqb cd o_cdata && vlist_eqb co o_cother &&
       obs_eqb (finish flatv2 [nrows; w] [] (contiguous_decode None nrows w cv cd)) o_array &&
       obs_eqb (finish flatv2 [nrows; w] [] (contiguous_decode None nrows w cv co)) o_other
   | MIndexed =>
-      let '(iv, cd) := compress_indexed src rows in
+      let '(iv, cd) := compress_indexed counts rows in
       let co := pack counts other in
       zlist_eqb iv o_var && vlist_eqb cd o_cdata && vlist_eqb co o_cother &&
       obs_eqb (finish flatv2 [nrows; w] [] (indexed_decode None nrows w iv cd)) o_array &&
       obs_eqb (finish flatv2 [nrows; w] [] (indexed_decode None nrows w iv co)) o_other
   end.
 
+(* count = flat list over all profiles; count[shape1 * i : shape1 * (i + 1)]
+   are the counts of feature i *)
 Definition check_compress3 (nprof w : nat) (rows : list (list (list val)))
   (aux : option (list (list (list val)))) (o_count o_index : list Z) (o_cdata : list val)
-  (o_array : obs) : bool :=
-  let src := match aux with Some a => a | None => rows end in
+  (o_array o_aux : obs) : bool :=
   let nfeat := length rows in
-  let '(cv, iv, cd) := compress_ic src rows in
+  let others := match aux with Some a => [concat a] | None => [] end in
+  let cs := chunks nfeat nprof (derive_counts (concat rows) others) in
+  let '(cv, iv, cd) := compress_ic cs rows in
   zlist_eqb (map Z.of_nat cv) o_count && zlist_eqb iv o_index && vlist_eqb cd o_cdata &&
-  obs_eqb (finish flatv3 [nfeat; nprof; w] [] (ic_decode None nfeat nprof w cv iv cd)) o_array.
+  obs_eqb (finish flatv3 [nfeat; nprof; w] [] (ic_decode None nfeat nprof w cv iv cd)) o_array &&
+  match aux with
+  | Some a =>
+      let '(_, _, ca) := compress_ic cs a in
+      obs_eqb (finish flatv3 [nfeat; nprof; w] [] (ic_decode None nfeat nprof w cv iv ca)) o_aux
+  | None => true
+  end.
 
 Definition case_obs (c : case) : obs :=
   match c with
   | KContig _ _ _ _ _ _ o | KIndexed _ _ _ _ _ _ o | KIC _ _ _ _ _ _ _ _ o
   | KGathered _ _ _ _ _ _ o => o
   | KCompress2 _ _ _ _ _ _ _ _ o _ => o
-  | KCompress3 _ _ _ _ _ _ _ o => o
+  | KCompress3 _ _ _ _ _ _ _ o _ => o
   end.
 
 Definition check_case (c : case) : bool :=
   match c with
   | KCompress2 m w rows aux other o_var o_cdata o_cother o_array o_other =>
       check_compress2 m w rows aux other o_var o_cdata o_cother o_array o_other
-  | KCompress3 nprof w rows aux o_count o_index o_cdata o_array =>
-      check_compress3 nprof w rows aux o_count o_index o_cdata o_array
+  | KCompress3 nprof w rows aux o_count o_index o_cdata o_array o_aux =>
+      check_compress3 nprof w rows aux o_count o_index o_cdata o_array o_aux
   | _ => obs_eqb (run_case c) (case_obs c)
   end.
